@@ -245,6 +245,17 @@ def runTreeCmd (n : Node) (k : Nat) (cmd : Sexp) : Option String :=
     let r := targetHistory H hist g
     pure (kv (p ++ ".hist") (optStr (fun l => String.intercalate ","
       (l.map fun (q : Nat × Node) => toString q.1 ++ ":" ++ hexOf (q.2.root H))) r))
+  | .list [.atom "piter", et, depth, len] => do
+    let et ← toTy et
+    let depth ← atomNat depth
+    let len ← atomNat len
+    let r := Impl.packedIter H et n depth len
+    pure (kv (p ++ ".piter") (optStr (fun l => String.intercalate "," (l.map valStr)) r))
+  | .list [.atom "biter", depth, len] => do
+    let depth ← atomNat depth
+    let len ← atomNat len
+    let r := Impl.bitfieldIter H n depth len
+    pure (kv (p ++ ".biter") (optStr bitsStr r))
   | .list [.atom "niter", depth, len] => do
     let depth ← atomNat depth
     let len ← atomNat len
